@@ -5,6 +5,10 @@ P = Verus proved (unbounded), K = Kani complete (loop-free, full domain), B = bo
 VERUS_UNITS = {
     'helper': 'build_helper.rs: every BuildHelper fn, VacantIter::next, ListItem accessors; sorted circular vacant list invariant; no assert/unwrap/index/overflow can fail',
     'ser': 'serializer.rs trait contracts, Option<NonZeroU32>, Vec<S>; U24nU8, State, Output<V>, MatchKind (+From<u8>/u8::from); bytewise serialize/deserialize_unchecked; C09 client',
+    'search_cw': 'charwise.rs child_index_unchecked / next_state_id_unchecked / next_state_id_leftmost_unchecked, CodeMapper::get, State accessors',
+    'utf8': 'charwise/iter.rs CharWithEndOffsetIterator::next against the UTF-8 table: offsets, scalar values, unwrap_unchecked/from_u32_unchecked preconditions',
+    'iter_cw': 'charwise/iter.rs next() of FindIterator, FindOverlappingIterator, FindOverlappingNoSuffixIterator against spec streams over the char-wise double array; laziness',
+    'ctor_cw': 'charwise.rs find_*_iter_from_iter constructors + CharWithEndOffsetIterator::new: documented match-kind panics, establish the iterator invariants from the automaton invariant',
     'search_bw': 'bytewise.rs child_index_unchecked / next_state_id_unchecked / next_state_id_leftmost_unchecked, State accessors, intpack getters',
     'iter_bw': 'bytewise/iter.rs next() of the four iterators against spec streams over the double array; laziness; index safety',
 }
@@ -25,28 +29,28 @@ AC_ASSUMED = ('spec stream over the double array == property-level semantics ove
               'AC-1/AC-2): not proved deductively; the stand-in compares the real iterators with the transcribed statement')
 
 PROPS = {
-    'C01': dict(verus=['search_bw', 'iter_bw'], kani=[], bounded=True,
+    'C01': dict(verus=['search_bw', 'iter_bw', 'search_cw', 'utf8', 'iter_cw'], kani=[], bounded=True,
                 chain='FindOverlappingIterator::next refines ovl_stream (P) <- next_state_id_unchecked == delta (P) <- encodes (B) <- NFA (B); ovl_stream == sem_overlapping (B)',
                 assumed=[NFA_ASSUMED, DA_ASSUMED, AC_ASSUMED]),
-    'C02': dict(verus=['search_bw', 'iter_bw'], kani=[], bounded=True,
+    'C02': dict(verus=['search_bw', 'iter_bw', 'search_cw', 'utf8', 'iter_cw'], kani=[], bounded=True,
                 chain='FindIterator::next refines find_stream incl. restart at root (P); rest as C01',
                 assumed=[NFA_ASSUMED, DA_ASSUMED, AC_ASSUMED]),
-    'C03': dict(verus=['search_bw', 'iter_bw'], kani=[], bounded=True,
+    'C03': dict(verus=['search_bw', 'iter_bw', 'search_cw'], kani=[], bounded=True,
                 chain='LestmostFindIterator::next refines lm_stream (P, byte-wise); dead-fail construction (B)',
                 assumed=[NFA_ASSUMED, DA_ASSUMED, AC_ASSUMED]),
-    'C04': dict(verus=['search_bw', 'iter_bw'], kani=[], bounded=True,
+    'C04': dict(verus=['search_bw', 'iter_bw', 'search_cw'], kani=[], bounded=True,
                 chain='as C03; shadowing at insertion (B)',
                 assumed=[NFA_ASSUMED, DA_ASSUMED, AC_ASSUMED]),
-    'C05': dict(verus=['search_bw', 'iter_bw'], kani=[], bounded=True,
+    'C05': dict(verus=['search_bw', 'iter_bw', 'search_cw', 'utf8', 'iter_cw'], kani=[], bounded=True,
                 chain='FindOverlappingNoSuffixIterator::next refines nosuf_stream with persistent state (P); rest as C01',
                 assumed=[NFA_ASSUMED, DA_ASSUMED, AC_ASSUMED]),
-    'C06': dict(verus=['search_bw', 'iter_bw', 'ser'], kani=['num_bytes_labels'], bounded=True,
+    'C06': dict(verus=['search_bw', 'iter_bw', 'search_cw', 'utf8', 'iter_cw', 'ser'], kani=['num_bytes_labels'], bounded=True,
                 chain='every returned Match is mk_match(outputs[opos-1], end) (P); outputs[j] == (value_i, |p_i|) (B)',
                 assumed=[NFA_ASSUMED, DA_ASSUMED]),
-    'C07': dict(verus=['search_bw', 'iter_bw', 'helper'], kani=['from_u32', 'utf8_decoder_two_chars'], bounded=True,
+    'C07': dict(verus=['search_bw', 'iter_bw', 'helper', 'search_cw', 'utf8', 'iter_cw', 'ctor_cw'], kani=['from_u32', 'utf8_decoder_two_chars'], bounded=True,
                 chain='every get_unchecked in bytewise search/iterators is an index obligation under da_safe/da_ranked (P); build establishes them (B)',
                 assumed=[NFA_ASSUMED, DA_ASSUMED]),
-    'C08': dict(verus=[], kani=['num_bytes_labels', 'utf8_decoder_two_chars'], bounded=True, chain='label byte lengths and decoder offsets (K); rest B so far', assumed=[AC_ASSUMED]),
+    'C08': dict(verus=['search_cw', 'utf8', 'iter_cw'], kani=['num_bytes_labels', 'utf8_decoder_two_chars'], bounded=True, chain='char-wise iterators refine streams over their array with decoder end offsets (P: iter_cw, utf8; offsets fall on character boundaries; unmapped characters go to the root: search_cw); label byte lengths and decoder (K); equality of the two streams rests on AC correctness (B); char-wise leftmost iterator (str-based): B', assumed=[AC_ASSUMED]),
     'C09': dict(verus=['ser'], kani=KANI_SER + ['intpack_u24nu8'], bounded=True,
                 chain='byte-wise: deserialize_unchecked(serialize(a) ++ t) == (a, t) and re-serialisation reproduces the bytes (P: ser, for every V satisfying the trait contract) <- primitive LE impls (K, 13 harnesses); char-wise automaton and CodeMapper: B',
                 assumed=['user-defined V: satisfies the Serializable trait contract (ser/deser inverse, fixed width < 256 MiB)', 'derived PartialEq is structural']),
@@ -56,9 +60,9 @@ PROPS = {
     'C11': dict(verus=['search_bw', 'iter_bw', 'helper'], kani=[], bounded=True,
                 chain='search contracts depend on the array only through encodes (P side); build for every num_free_blocks (B)',
                 assumed=[NFA_ASSUMED, DA_ASSUMED]),
-    'C12': dict(verus=['iter_bw'], kani=[], bounded=True,
-                chain='laziness postconditions of the three standard iterators (P, byte-wise)', assumed=[]),
-    'C13': dict(verus=['search_bw', 'iter_bw'], kani=[], bounded=True,
+    'C12': dict(verus=['iter_bw', 'utf8', 'iter_cw'], kani=['utf8_decoder_two_chars'], bounded=True,
+                chain='laziness postconditions of the three standard iterators, both variants (P): m.end == bytes pulled, source drained on None, pulls only via Enumerate::next; decoder pulls exactly the bytes of one character (P+K)', assumed=['slice/str entry points == iterator entry points over U8SliceIterator/StrIterator: constructors not yet under contract (B)']),
+    'C13': dict(verus=['search_bw', 'iter_bw', 'search_cw', 'utf8', 'iter_cw', 'ctor_cw'], kani=[], bounded=True,
                 chain='decreases rank in the transition loops, decreases |rest| in scanning loops (P); ranking exists (B)',
                 assumed=[NFA_ASSUMED, DA_ASSUMED]),
     'C15': dict(verus=[], kani=[], bounded=True, chain='B only so far', assumed=[]),
